@@ -12,7 +12,7 @@ def units(tier):
     # what a callback of one object does must not depend on process-wide state other objects write (the callbacks run
     # with the Modbus/TCP transaction counter of the process havocked; obligation tagged C20)
     from . import C04
-    callbacks = [u for u in C04.protocol_units(tier) if "received" in u[4]]
+    callbacks = [u for u in C04.protocol_units(tier) if "received" in u[4] or "__init__" in u[4]]
     return (script_units(SIDECARS, "table_rows", "rows", ("C11", "C12", "C20"), tier, sorted(cs.sensor_tables())) + api
             + callbacks)
 
